@@ -405,6 +405,41 @@ func runC13(c runner.Case, env *runner.Env) (res runner.Result) {
 		}
 	}
 	res.Count("resumes_after_swept_boundary_record", int64(resumes))
+	// A second pass of the SAME sweeper, a moment later, with no commit in between: ladder markers that were still
+	// young during the first pass have expired by the clock alone and must go now.
+	if !preEpoch && len(res.More) == 0 && res.Verdict != runner.Violated {
+		time.Sleep(300 * time.Millisecond)
+		t0b := time.Now()
+		if err := sw.VerifSweepOnce(context.Background()); err != nil {
+			res.Violate("sweep-error", "the second sweep pass failed: "+err.Error(), map[string]any{"params": p})
+			return
+		}
+		after2, _, _ := lmdbx.DumpEnv(e)
+		cut2 := clamp(t0b.Add(-Rrepo))
+		crossed := 0
+		for _, d := range sweptDBIs {
+			still := map[string]bool{}
+			if ad := after2[d]; ad != nil {
+				for _, kv := range ad.KVs {
+					still[string(kv.K)] = true
+				}
+			}
+			if ad := after[d]; ad != nil {
+				for _, kv := range ad.KVs {
+					h, _, err := hdr.Read(kv.V)
+					if err != nil || !h.Deleted() || h.TS >= cut2 {
+						continue
+					}
+					crossed++
+					if still[string(kv.K)] {
+						res.Violate("expired-marker-survived-second-pass", fmt.Sprintf("dbi %s key %s: deletion marker %v was younger than the retention during the first pass and older at the start of the second pass of the same sweeper (no commit in between): it is still present", d, kv.K, time.Unix(0, int64(h.TS)).UTC()), wit("second pass"))
+					}
+				}
+			}
+		}
+		res.Count("second_passes", 1)
+		res.Count("markers_expired_between_two_passes", int64(crossed))
+	}
 	// non-native: application data untouched, and nothing but _sync* DBIs changed
 	for _, d := range appDBIs {
 		one := lmdbx.Dump{d: before[d]}
